@@ -303,6 +303,7 @@ class _OrbitCorrectionOperatorBase:
             steps=self._steps,
             method=self._method,
             order=self._order,
+            forward=self._forward,
         )
         return Phi
 
